@@ -569,6 +569,47 @@ func rsemScenario(c *Ctx, sh *shard, scen int) {
 			off += len(buf)
 		}
 		fm.BlockFilterRegionOffset, fm.BlockFilterRegionSize = off, 0
+		// half of the external files with several blocks carry a block filter section for every block but the
+		// last one (legal: BloomFilterSize == 0 means "no section", such a block cannot be ruled out by filters,
+		// the others still can)
+		if len(fm.DataBlocks) >= 2 && c.chance(0.6) {
+			var region []byte
+			parts := sortedKeys(byPart)
+			for bi := 0; bi < len(fm.DataBlocks)-1; bi++ {
+				fs, ts, fts := map[string]bool{}, map[string]bool{}, map[string]bool{}
+				for _, r := range byPart[parts[bi]] {
+					rb, _ := json.Marshal(r.tr.row)
+					a, b, cc := bs.VerifIndexRow(rb, tk.fn)
+					for _, e := range a {
+						fs[e] = true
+					}
+					for _, e := range b {
+						ts[e] = true
+					}
+					for _, e := range cc {
+						fts[e] = true
+					}
+				}
+				mkf := func(set map[string]bool) *bloom.BloomFilter {
+					f := bloom.NewWithEstimates(uint(len(set)+1), cfg.BloomFalsePositiveRate)
+					for e := range set {
+						f.AddString(e)
+					}
+					return f
+				}
+				sec, err := bs.VerifEncodeFilterSection(&bs.BloomFilters{FieldBloomFilter: mkf(fs), TokenBloomFilter: mkf(ts), FieldTokenBloomFilter: mkf(fts)})
+				must(err)
+				fm.DataBlocks[bi].BloomFilterOffset = off + len(region)
+				fm.DataBlocks[bi].BloomFilterSize = len(sec)
+				region = append(region, sec...)
+			}
+			_, err := w.Write(region)
+			must(err)
+			fm.BlockFilterRegionSize = len(region)
+			c.dist("e2e_external_block_sections", "all but the last block")
+		} else {
+			c.dist("e2e_external_block_sections", "none")
+		}
 		// file-level filters are public fields: an external writer may provide any subset of them
 		{
 			fs, ts, fts := map[string]bool{}, map[string]bool{}, map[string]bool{}
